@@ -95,6 +95,7 @@ pub const WITNESS_NAMES: &[(&str, u64)] = &[
     ("reset_seen", xfer::W_RESET),
     ("some_execution_completed_all_futures", xfer::W_ALL_DONE),
     ("pushes_of_two_streams_adjacent_on_wire", xfer::W_TWO_STREAMS_INTERLEAVED),
+    ("multiplexor_dropped_with_streams_alive", xfer::W_MUX_DROPPED),
 ];
 
 pub fn run(args: &Args) -> Report {
@@ -105,16 +106,29 @@ pub fn run(args: &Args) -> Report {
     for (a, b) in configs(thorough) {
         for cap in [0usize, 1] {
             for (name, streams) in scripts(thorough, a.0.max(b.0)) {
-                let cfg = XferCfg { a, b, cap, streams, stream_buffer: 4, one_byte_frames: false, dgram_pingpong: 0, dgram_buffer: 4, horizon: 4000 };
+                let cfg = XferCfg { a, b, cap, streams, stream_buffer: 4, one_byte_frames: false, dgram_pingpong: 0, dgram_buffer: 4, drop_mux_when_writers_done: None, horizon: 4000 };
                 let label = format!("{name} | {}", cfg.describe());
-                cases.push(Case { label, exec: Box::new(move |r| xfer::exec(&cfg, &or, r)) });
+                cases.push(Case { try_unbounded: false, max_k: u32::MAX, label, exec: Box::new(move |r| xfer::exec(&cfg, &or, r)) });
             }
         }
+    }
+    // the application drops its Multiplexor handle once its writers are done (the streams live on):
+    // whatever was accepted and cleanly shut down must still arrive, also under link back-pressure
+    for (a, b, cap) in [((2u32, 1u32), (2u32, 1u32), 1usize), ((3, 2), (1, 1), 1), ((2, 2), (3, 1), 0)] {
+        let streams = vec![StreamSpec {
+            tag: 1,
+            opener: 0,
+            opener_plan: EndPlan::Split(vec![Op::W(2), Op::W(2), Op::W(1), Op::Shutdown], vec![Op::ReadToEof(4)]),
+            acceptor_plan: EndPlan::Split(vec![Op::W(1), Op::Shutdown], vec![Op::ReadToEof(1)]),
+        }];
+        let cfg = XferCfg { a, b, cap, streams, stream_buffer: 4, one_byte_frames: false, dgram_pingpong: 0, dgram_buffer: 4, drop_mux_when_writers_done: Some(0), horizon: 4000 };
+        let label = format!("writer done, then Multiplexor A dropped at any point | {}", cfg.describe());
+        cases.push(Case { try_unbounded: false, max_k: u32::MAX, label, exec: Box::new(move |r| xfer::exec(&cfg, &or, r)) });
     }
     let plan = Plan {
         ks: if thorough { vec![0, 1, 2, 3, 4] } else { vec![0, 1, 2, 3] },
         env: 0,
-        fault: 0,
+        fault: 1,
         total_wall: Duration::from_secs(if thorough { 900 } else { 20 }),
         max_execs_per_case: if thorough { 3_000_000 } else { 200_000 },
         required_witnesses: xfer::W_CREDIT_ZERO | xfer::W_ACK_SENT | xfer::W_ALL_DONE | xfer::W_TWO_STREAMS_INTERLEAVED,
